@@ -150,8 +150,8 @@ fn run_on(rep: &Report, reg: Vec<TypeEntry>, full: bool) -> BTreeSet<String> {
     let thorough = rep.tier == Tier::Thorough;
     let tp = tier_params(thorough);
     rep.set_rule(&format!(
-        "VALUES per streamable type: the type's builder (derive(Arbitrary) of /repo, hand-written builders for chia-consensus/chia-datalayer/GTElement) driven by a tape of (consumed+{TAPE_SLACK}) zero bytes; every tape with one deviation (every position x {{01,02,7f,80,ff}}){}; plus hand-written letters (ProofOfSpace v1 x4 Option combinations and the 7 recorded v2 proofs, FullBlock/UnfinishedBlock v0/v1 with/without generator, packed-Option structs x4, containers holding a v2 proof). BYTES per type: bases = every letter + for each of the {} shortest distinct encoding lengths the lexicographically smallest enumerated encoding (zero-seed BLS points replaced by the identity so decoding needs no curve arithmetic; the first {} also unreplaced) + raw adversarial letters; per base every single-byte substitution at every position by {{00,01,02,03,7f,80,fe,ff, old^80, old^40, old^20, old^01}} (all 255 for bases <= {} bytes), every 4-byte window := {{ffffffff,00000000,80000000,00200001,old+1,old-1}}, every proper prefix, one appended byte {{00,ff}}. distinct = distinct (type, encoding) pairs produced by the value explorer",
-        if thorough { " and every tape with two deviations whose first one changes the encoding length (one representative per distinct resulting value)" } else { "" },
+        "VALUES per streamable type: the type's builder (derive(Arbitrary) of /repo, hand-written builders for chia-consensus/chia-datalayer/GTElement) driven by a tape of (consumed+{TAPE_SLACK}) zero bytes; every tape with one deviation (every position x {{01,02,7f,80,ff}}){}; plus hand-written letters (ProofOfSpace v1 x4 Option combinations and the 7 recorded v2 proofs, FullBlock/UnfinishedBlock v0/v1 with/without generator, packed-Option structs x4, containers holding a v2 proof). BYTES per type: bases = every letter + for each of the {} shortest distinct encoding lengths the lexicographically smallest enumerated encoding, separately for well-formed values and for values that are not well-formed (zero-seed BLS points replaced by the identity so decoding needs no curve arithmetic; the first {} also unreplaced) + raw adversarial letters; per base every single-byte substitution at every position by {{00,01,02,03,7f,80,fe,ff, old^80, old^40, old^20, old^01}} (all 255 for bases <= {} bytes), every 4-byte window := {{ffffffff,00000000,80000000,00200001,old+1,old-1}}, every proper prefix, one appended byte {{00,ff}}. distinct = distinct (type, encoding) pairs produced by the value explorer",
+        if thorough { " and every tape with two deviations where the first changes the encoding length (one representative first deviation per distinct resulting value) and the second lies at a later position" } else { "" },
         tp.base.max_lengths, tp.base.raw_bls_bases, tp.full_alphabet_max_len
     ));
     rep.assume("SHA-256 from the sha2 crate (mc::sx::sha256) is the reference hash");
